@@ -5,6 +5,7 @@ import ZV.Driver.C05
 import ZV.Driver.C06
 import ZV.Driver.C08
 import ZV.Driver.C09
+import ZV.Driver.C10
 import ZV.Driver.C11
 
 def dispatch (line : String) : String :=
@@ -14,6 +15,7 @@ def dispatch (line : String) : String :=
   | "c06" :: ws => ZV.Driver.C06.handle ws
   | "c08" :: ws => ZV.Driver.C08.handle ws
   | "c09" :: ws => ZV.Driver.C09.handle ws
+  | "c10" :: ws => ZV.Driver.C10.handle ws
   | "c11" :: ws => ZV.Driver.C11.handle ws
   | _ => "bad-op"
 
